@@ -87,6 +87,14 @@ func C17(c *Ctx) int {
 			MaxDepth: 3 + i%2, MaxSize: 5 + i%6, MaxBranch: 3}
 		ps = append(ps, gen.Random(fmt.Sprintf("c17_%d_%d", c.Seed, i), c.Seed*1000+int64(i), ft))
 	}
+	// several tokens of one instance at ONE gateway at the same time (the same conditions are
+	// evaluated, the same node state is touched, from several flow goroutines at once)
+	gen.MergedArrival, gen.BurstArrival = true, true
+	for _, kind := range []string{"xor"} {
+		ps = append(ps, gen.GatewayTable(kind, 2, 0, 4, -1), gen.GatewayTable(kind, 1, -1, 3, -1), gen.GatewayTable(kind, 2, 2, 5, -1))
+	}
+	gen.MergedArrival, gen.BurstArrival = false, false
+	ps = append(ps, gen.GatewayTable("xor", 2, 1, 3, -1), gen.ParallelBurst(2, 2, 3), gen.ParallelNM(3, 3, false))
 	ps = append(ps, gen.CatchShapes()...)
 	ps = append(ps, gen.EventGatewayShapes()...)
 	ps = append(ps, gen.MultiCatchShapes()...)
